@@ -1571,6 +1571,13 @@ class AND(LogicalBinaryOperator):
             self._is_false_ = right_value.is_false
             yield OperationResult(right_value.bindings, self._is_false_, self)
 
+    def _invert_(self):
+        """
+        Push the negation into the operands (De Morgan), because flipping the truth value of every result of a nested
+        disjunction would also accept the bindings of one of its operands for which the other operand holds.
+        """
+        return optimize_or(self.left._invert_(), self.right._invert_())
+
 
 @dataclass(eq=False, repr=False)
 class OR(LogicalBinaryOperator, ABC):
@@ -1642,6 +1649,13 @@ class OR(LogicalBinaryOperator, ABC):
             yield OperationResult(right_value.bindings, self._is_false_, self)
 
         self.right_evaluated = False
+
+    def _invert_(self):
+        """
+        Push the negation into the operands (De Morgan), because the union form yields the bindings of each operand
+        on their own, and flipping the truth value of those would accept bindings for which the other operand holds.
+        """
+        return AND(self.left._invert_(), self.right._invert_())
 
 
 @dataclass(eq=False, repr=False)
